@@ -16,6 +16,8 @@ var table = map[string]struct {
 	level string
 	fn    checkFn
 }{
+	"C01": {"model_checking", checks.C01},
+	"C02": {"model_checking", checks.C02},
 	"C03": {"model_checking", checks.C03},
 }
 
